@@ -45,7 +45,7 @@ COMPONENTS = {
              'chain as for RPC)', 'event loop -> SimLoop', 'worker restart -> new launcher on a fresh loop'],
 }
 ASSUMPTIONS = ['task arguments are picklable', 'a rejected task comes back to the sender as TaskRejected']
-EXPECTED_COUNTERS = ['sender:async', 'sender:thread', 'op:create', 'op:launch', 'op:continue', 'op:execute', 'op:bogus', 'op:snapshot', 'op:restart',
+EXPECTED_COUNTERS = ['probe:termination_hook_fault_fired', 'sender:async', 'sender:thread', 'op:create', 'op:launch', 'op:continue', 'op:execute', 'op:bogus', 'op:snapshot', 'op:restart',
                      'probe:continue_tagged', 'probe:continue_missing', 'probe:rejected_no_persister', 'probe:nowait',
                      'probe:reply_error', 'persister:none', 'persister:memory', 'persister:pickle', 'loader:custom',
                      'via:loopcomm', 'via:direct']
@@ -129,6 +129,8 @@ def random_case(rng, tier):
     return {'programs': progs, 'persister': persister, 'loader': rng.choice(['default', 'default', 'custom']),
             'via': rng.choice(['loopcomm', 'loopcomm', 'direct']), 'ops': ops, 'load_context': rng.random() < 0.5,
             'sender': rng.choice(['body', 'async', 'thread']),
+            'fault': rng.choice([None, None, None, None, ['hook:on_finished', 0], ['hook:on_terminated', 0], ['hook:on_finished:post', 0],
+                                 ['hook:on_killed', 0]]),
             'delay': rng.choice([0, 0, 0.5])}
 
 
@@ -151,7 +153,7 @@ def shrink(case):
             candidate['programs'][i] = smaller
             yield candidate
     for key, simple in (('loader', 'default'), ('via', 'loopcomm'), ('delay', 0), ('persister', 'memory'), ('load_context', False),
-                        ('sender', 'body')):
+                        ('sender', 'body'), ('fault', None)):
         if case.get(key) != simple:
             candidate = copy.deepcopy(case)
             candidate[key] = simple
@@ -182,8 +184,14 @@ class Harness:
             # the old worker is gone: nothing of it runs any more
         self.loop = seams.new_loop(max_ticks=20000) if first else self._fresh_loop()
         if first:
+            fault = self.case.get('fault')
+            if fault:
+                # one user hook fails once (first time it is reached by any process of the history): the process concerned
+                # must end EXCEPTED and a waiting sender must get the error, not an earlier outcome
+                self.world.fault = tuple(fault)
             for program in self.case['programs']:
-                self.classes.append(programs.build_process_class(program, self.world, plumpy, hooks=False, record_calls=False))
+                self.classes.append(programs.build_process_class(program, self.world, plumpy, hooks=bool(fault),
+                                                                 record_calls=False))
             if self.case['loader'] == 'custom':
                 self.loader = persist.make_custom_loader(plumpy)
             if self.case['persister'] == 'memory':
@@ -463,6 +471,8 @@ def run(case):
                                    f'persisted trace of the continued process {proc._trace!r} != {model["trace"]!r}')
         result.events = list(world.events)
         result.nontrivial = nontrivial
+        if world.fault_fired is not None:
+            result.counters['probe:termination_hook_fault_fired'] += 1
         result.counters['custom_loader_loads'] += getattr(type(harness.loader), 'loads', 0) if harness.loader else 0
         # leave nothing half-run behind
         for proc in world.instances:
